@@ -80,7 +80,9 @@ def parse_tlc(out):
         r['depth'] = int(m.group(1))
     if 'Model checking completed. No error has been found.' in out:
         r['ok'] = True
-    m = re.search(r'Error: (Invariant (\S+) is violated|Temporal properties were violated|Deadlock reached|.*)', out)
+    # only a property failure is a verdict; any other error (parse failure, evaluation error, ...) is reported by the
+    # caller as an infrastructure error
+    m = re.search(r'Error: (Invariant (\S+) is violated|Temporal properties were violated|Deadlock reached|Action property (\S+) is violated|Assumption .* is false)', out)
     if m and not r['ok']:
         r['violation'] = m.group(1)
     for m in re.finditer(r'<(\w+) line \d+, col \d+ to line \d+, col \d+ of module \w+(?: \([\d ]+\))?>: (\d+):(\d+)', out):
@@ -843,7 +845,7 @@ def wsq_level_f(ctx, lib):
     # binding self-test: the same replay against a mutated copy of the queue source must diverge
     mdir = os.path.join(ctx.work, 'mut'); os.makedirs(mdir, exist_ok=True)
     src = open(os.path.join(REPO, 'src', 'myth_wsqueue_func.h')).read()
-    mut = src.replace('  if (b < top){\n    myth_wsqueue_rbarrier();\n    ret = q->ptr[b];', '  if (b <= top){\n    myth_wsqueue_rbarrier();\n    ret = q->ptr[b];', 1)
+    mut = src.replace('  b = q->base;\n  q->base = b + 1;\n  MYTH_VERIF_FPOINT("take_f");', '  b = q->base;\n  q->base = b + 2;\n  MYTH_VERIF_FPOINT("take_f");', 1)
     if mut == src:
         raise Infra('bind self-test: mutation site not found in myth_wsqueue_func.h')
     open(os.path.join(mdir, 'myth_wsqueue_func.h'), 'w').write(mut)
@@ -853,8 +855,8 @@ def wsq_level_f(ctx, lib):
     rc, o = sh(['python3', os.path.join(VERIF, 'tools', 'wsq_replay.py'), os.path.join(ctx.work, 'behaviours_WSQReplay.cfg.out'), unit + '_mut'], timeout=900)
     m = re.search(r'failed=(\d+)', o)
     if not m or int(m.group(1)) == 0:
-        raise Infra('bind self-test: the replay does not notice a mutated take() (b <= top)')
-    ctx.cov['bind_selftest'].append({'corruption': 'take(): b <= top in a copy of the source', 'rejected': True, 'behaviours_diverging': int(m.group(1))})
+        raise Infra('bind self-test: the replay does not notice a mutated take() (base advanced by 2)')
+    ctx.cov['bind_selftest'].append({'corruption': 'take(): base advanced by 2 in a copy of the source', 'rejected': True, 'behaviours_diverging': int(m.group(1))})
 
 
 def check_C02(ctx):
